@@ -126,7 +126,7 @@ func drawJob(rt *rapid.T) job {
 			"<?php namespace N; use A\\{B, function c}; new B; c(); \\d();", "<?php $x = <<<X\n  X1\n  X;\n",
 		}).Draw(rt, "fixed"))
 	default:
-		c := progs.Draw(rt, v, progs.Options(v), 1, 3)
+		c := progs.Draw(rt, v, progs.StructuralOptions(v), 1, 3)
 		src = c.G.Render(c.Root, progs.Policy(rt, phpgen.PolicyFull, nil)).Src
 	}
 	return job{src: src, ver: v, pipe: rapid.IntRange(0, 31).Draw(rt, "pipeline"), nocb: rapid.IntRange(0, 3).Draw(rt, "handler") == 0}
